@@ -96,50 +96,7 @@ theorem add_child_self {kvs : AMap Node} (hs : AMap.Sorted kvs) {c : String} {n 
       rw [setSlot_walkIdx_self is x n h]
       exact AMap.insert_get?_self hs hb
 
-/-! ## validity is inherited by children -/
-
-theorem walkIdx_valid : ∀ (is : List Nat) (x n : Node), x.Valid → walkIdx (some x) is = some n → n.Valid
-  | [], x, n, hx, h => by simp only [walkIdx] at h; cases h; exact hx
-  | i :: is, .leaf _, n, _, h => by simp [walkIdx] at h
-  | i :: is, .cont _, n, _, h => by simp [walkIdx] at h
-  | i :: is, .list xs, n, hx, h => by
-    simp only [walkIdx] at h
-    cases hy : xs[i]? with
-    | none =>
-      rw [hy] at h
-      cases is with
-      | nil => simp [walkIdx] at h
-      | cons j js => simp [walkIdx] at h
-    | some y =>
-      rw [hy] at h
-      obtain ⟨hw, hk⟩ := hx
-      have hm : y ∈ xs := List.mem_of_getElem? hy
-      have hyv : y.Valid := by
-        cases hw with
-        | list hw => cases hk with
-          | list hk => exact ⟨hw y hm, hk y hm⟩
-      exact walkIdx_valid is y n hyv h
-
-theorem child_valid {kvs : AMap Node} (hv : (Node.cont kvs).Valid) {c : String} {n : Node}
-    (h : child kvs c = some n) : n.Valid := by
-  rcases hp : parseSeg c with ⟨b, is⟩
-  rw [child_eq_of_parse _ hp] at h
-  obtain ⟨hw, hk⟩ := hv
-  have hget : ∀ {k : String} {x : Node}, AMap.get? kvs k = some x → x.Valid := by
-    intro k x hg
-    have hm := AMap.mem_of_get? hg
-    cases hw with
-    | cont _ hw => cases hk with
-      | cont _ hk2 => exact ⟨hw _ hm, hk2 _ hm⟩
-  by_cases he : is = []
-  · simp only [he, if_true] at h
-    exact hget h
-  · simp only [he, if_false] at h
-    cases hb : AMap.get? kvs b with
-    | none => rw [hb, walkIdx_none is he] at h; cases h
-    | some x =>
-      rw [hb] at h
-      exact walkIdx_valid is x n (hget hb) h
+/-! (walkIdx_valid / child_valid live in YtkProofs/Dom.lean) -/
 
 /-- in a valid container a name that `Child` does not resolve is not a literal key either -/
 theorem get?_none_of_child_none {kvs : AMap Node} (hv : (Node.cont kvs).Valid) {c : String}
